@@ -57,14 +57,16 @@ def input_case(draw, sub="sample"):
         combos.append([draw(st.sampled_from(IN_CONT)), draw(st.sampled_from(["two", "inter"])),
                        draw(st.sampled_from(OUT_CONT)), draw(st.sampled_from(["two", "inter"])),
                        draw(st.sampled_from(EXTS + ["stdout", "stdout-fasta"])), draw(st.sampled_from([1, 1, 2])),
-                       draw(st.sampled_from(["fastq", "fastq", "fasta"]))])
+                       draw(st.sampled_from(["fastq", "fastq", "fasta"])),
+                       draw(st.sampled_from([None, None, None, "Z", 1, 9]))])
     return {"sub": sub, "paired": paired, "fastq": True, "r1": r1, "r2": r2, "ad1": ad1, "ad2": ad2,
             "glob": {"no_index": True}, "o": o, "f": f, "combos": combos}
 
 
 def run_combo(sc, combo):
     """Run one combination; returns (args, [records R1, records R2 or None], first bytes, raw files)."""
-    inc, inlay, outc, outlay, ext, cores, infmt = combo
+    inc, inlay, outc, outlay, ext, cores, infmt = combo[:7]
+    level = combo[7] if len(combo) > 7 else None
     paired = sc["paired"]
     w = cli.fastq if infmt == "fastq" else cli.fasta
     iext = ".fq" if infmt == "fastq" else ".fa"
@@ -72,6 +74,10 @@ def run_combo(sc, combo):
     args = scen.flatten(scen.mod_tokens(sc)) + scen.flatten(scen.filter_tokens(sc))
     if cores > 1:
         args = ["-j", str(cores), "--buffer-size", "600"] + args
+    if level == "Z":
+        args = ["-Z"] + args  # compression level 1: the container's content must not change
+    elif level is not None:
+        args = ["--compression-level", str(level)] + args
     interleaved = False
     if paired and inlay == "inter":
         il = [x for p in zip(sc["r1"], sc["r2"]) for x in p]
@@ -139,7 +145,7 @@ def check_combos(sc, ctx, combos):
     _, base, _ = run_combo(sc, base_combo)
     nt = 0
     for combo in combos:
-        inc, inlay, outc, outlay, ext, cores, infmt = combo
+        inc, inlay, outc, outlay, ext, cores, infmt = combo[:7]
         if infmt == "fasta" and ext in (".fastq", ".fq"):
             ctx.excluded += 1
             continue
